@@ -351,16 +351,31 @@ fn run_case(kind: &str, bytes: &[u8], m128: bool, fault: Fault, chunk: usize) ->
             emu.set_debug_interface(VDebug::Never);
             emu.set_speed(rustzx_core::EmulationMode::FrameCount(1));
             if kind == "tap" || kind == "gzip:tap" {
-                // fast-load request first, then play the tape in real time
-                poke_bytes(&mut emu, 0x5B80, &[0xCD, 0x56, 0x05, 0x18, 0xFE]);
-                let c = emu.verif_cpu();
-                c.regs.set_af(0xFF01);
-                c.regs.set_ix(0x8000);
-                c.regs.set_de(0x0100);
-                c.regs.set_sp(0x5BFE);
-                c.regs.set_pc(0x5B80);
-                for _ in 0..5 {
-                    let _ = emu.emulate_frames(std::time::Duration::from_secs(100));
+                // fast-load requests first (three, rotating through destinations in the middle of RAM, across and
+                // exactly up to the top of memory, LOAD and VERIFY, both usual flag bytes), then the tape in real time
+                const PLANS: [(u16, u16, u16); 6] = [
+                    (0xFF01, 0x8000, 0x0100),
+                    (0xFF01, 0xFFF0, 0x0100),
+                    (0x0001, 0xFFEF, 0x0011),
+                    (0xFF01, 0xFED6, 0x012A),
+                    (0xFF00, 0xFFF8, 0x0008),
+                    (0x0001, 0x8000, 0xFFFF),
+                ];
+                let h = bytes.iter().take(64).fold(bytes.len(), |a, b| a.wrapping_mul(31).wrapping_add(*b as usize));
+                for k in 0..3 {
+                    let (af, ix, de) = PLANS[(h + k) % PLANS.len()];
+                    poke_bytes(&mut emu, 0x5B80, &[0xCD, 0x56, 0x05, 0x18, 0xFE]);
+                    let c = emu.verif_cpu();
+                    c.regs.set_af(af);
+                    c.regs.set_ix(ix);
+                    c.regs.set_de(de);
+                    c.regs.set_sp(0x5BFE);
+                    c.regs.set_pc(0x5B80);
+                    c.regs.set_iff1(false);
+                    c.halted = false;
+                    for _ in 0..2 {
+                        let _ = emu.emulate_frames(std::time::Duration::from_secs(100));
+                    }
                 }
                 emu.play_tape();
             }
